@@ -30,6 +30,7 @@ class Kernel:
         self.groups = groups
         self.fn_check = I.fn('check_build_dirty', 'work.rs')
         self.fn_hash = I.fn('hash_build', 'hash.rs')
+        self.fn_setdisc = I.fn('set_discovered_ins', 'graph.rs')
         self.hashes = []
         self.fs = None
         I.set_overrides(D.hasher_models(self) + D.fs_models(self))
@@ -45,8 +46,15 @@ class Kernel:
             rspv = L.mk('RspFile', path=Agg('PathBuf', [string(b'r.rsp')]), content=M.string_of([IntV(8, 64), rsp]))
         w.add_build([f['out'], f['out2']], explicit=[f[explicit_name]], implicit=[f['imp']], order_only=[f['oo']],
                     validation=[f['val']], cmdline=M.string_of([IntV(8, 99), IntV(8, 99), IntV(8, 32), cmd_byte]),
-                    rspfile=rspv, discovered=[f[d] for d in dset])
+                    rspfile=rspv, discovered=[])
         return w, f
+
+    def set_discovered(self, I, g, f, dset):
+        """the discovered list goes through the REAL Build::set_discovered_ins, as in the process that recorded the
+        step (record_finished) and in the one that loads the record (db read_build): both hand over the names in the
+        reported = recorded order, whatever their numbering in that process"""
+        b = dm_items(self.L.get(g, 'builds'))[0]
+        I.call_fn(self.fn_setdisc, [Ref(Cell(b), ()), vec(fileid(f[d]) for d in dset)])
 
     def run_path(self, I):
         L = self.L
@@ -71,6 +79,7 @@ class Kernel:
         if have_record:
             w1, f1 = self.world(['out2', 'disc', 'in'], 'in', x_rec, rsp_rec, dset)
             g1 = w1.graph()
+            self.set_discovered(I, g1, f1, dset)
             fsr = L.mk('FileState', **{'0': None}) if False else Agg('FileState', [densemap(
                 [some(D.stamp(rec.files[nm][1], rec.files[nm][2])) for nm in w1.names])])
             b1 = dm_items(L.get(g1, 'builds'))[0]
@@ -79,6 +88,7 @@ class Kernel:
         # current state
         w2, f2 = self.world([], 'in2' if renamed else 'in', x_cur, rsp_cur, dset)
         g2 = w2.graph()
+        self.set_discovered(I, g2, f2, dset)
         self.fs = cur
         fsc = Agg('FileState', [densemap([none() for _ in w2.names])])
         opts = L.mk('Options', failures_left=none(), parallelism=usize(1), explain=BoolV(False), adopt=BoolV(False))
